@@ -239,7 +239,7 @@ def rule_ctor_symmetry(ctx):
     shape0 = Form.atom(("idx", S("signal.shape"), Form.num(0)))
     for cls in CLASSES:
         init = pkg.find_method("typing", cls, "__init__")
-        base = {"noise": ["notnone", ("notinst", "str")], "signal": ("notinst", "str"), "dtype": None}
+        base = {"noise": ["notnone", ("notinst", "str")], "signal": ["notnone", ("notinst", "str")], "dtype": None}   # np.array(signal) is never None
         # shape-equality guard: mismatching shapes never construct an object
         for ndim in (0, 1, 2):
             ass = dict(base)
